@@ -41,7 +41,9 @@ enum Op {
     Ack(Vec<u64>),
     Modify(Vec<(u64, i32)>),
     AdvanceMs(u64),
-    /// move to 1 ms before / 150 ms after the earliest deadline
+    /// a consumer sends a pull for up to 1000 messages and goes away before the answer (the request stays in the mailbox)
+    AbandonedPull,
+    /// move to 1 ms before / 1 s after the earliest deadline
     ProbeBefore,
     ProbeAfter,
 }
@@ -53,6 +55,7 @@ fn op_to_json(op: &Op) -> String {
         Op::Ack(ids) => format!("[\"ack\",[{}]]", ids.iter().map(|i| i.to_string()).collect::<Vec<_>>().join(",")),
         Op::Modify(ms) => format!("[\"modify\",[{}]]", ms.iter().map(|(i, s)| format!("[{},{}]", i, s)).collect::<Vec<_>>().join(",")),
         Op::AdvanceMs(ms) => format!("[\"advance_ms\",{}]", ms),
+        Op::AbandonedPull => "[\"abandoned_pull\"]".to_string(),
         Op::ProbeBefore => "[\"probe_before\"]".to_string(),
         Op::ProbeAfter => "[\"probe_after\"]".to_string(),
     }
@@ -81,6 +84,7 @@ fn parse_ops(s: &str) -> Vec<Op> {
             "publish" => { ops.push(Op::Publish(num(&toks[i + 2]) as u8)); i += 3; }
             "pull" => { ops.push(Op::Pull(num(&toks[i + 2]) as u16)); i += 3; }
             "advance_ms" => { ops.push(Op::AdvanceMs(num(&toks[i + 2]) as u64)); i += 3; }
+            "abandoned_pull" => { ops.push(Op::AbandonedPull); i += 1; }
             "probe_before" => { ops.push(Op::ProbeBefore); i += 1; }
             "probe_after" => { ops.push(Op::ProbeAfter); i += 1; }
             "ack" => {
@@ -108,6 +112,7 @@ fn parse_ops(s: &str) -> Vec<Op> {
 struct Model {
     pending: Vec<u64>,                      // messages available for delivery (order of first deliveries is checked separately)
     leases: BTreeMap<u64, (u64, Instant)>,  // ack id -> (message id, deadline)
+    ghosts: Vec<(u64, Instant, Instant)>,   // leases of an abandoned pull: (message id, earliest, latest possible deadline)
     used_ack_ids: Vec<u64>,
     acked: Vec<u64>,
     published: Vec<u64>,                    // publish order
@@ -117,8 +122,18 @@ impl Model {
     fn expire(&mut self, now: Instant) {
         let exp: Vec<u64> = self.leases.iter().filter(|(_, (_, d))| *d <= now).map(|(a, _)| *a).collect();
         for a in exp { let (m, _) = self.leases.remove(&a).unwrap(); self.pending.push(m); }
+        let mut keep = Vec::new();
+        for g in self.ghosts.drain(..) { if g.2 <= now { self.pending.push(g.0); } else { keep.push(g); } }
+        self.ghosts = keep;
     }
-    fn earliest(&self) -> Option<Instant> { self.leases.values().map(|(_, d)| *d).min() }
+    fn earliest(&self) -> Option<Instant> { self.leases.values().map(|(_, d)| *d).chain(self.ghosts.iter().map(|g| g.2)).min() }
+    /// is `t` inside a window in which the model cannot know whether a lease has expired yet
+    fn uncertain(&self, t: Instant) -> bool { self.uncertain_drift(t, 8) }
+    /// `drift_ms`: how far the clock may still move during the step (settling sleeps)
+    fn uncertain_drift(&self, t: Instant, drift_ms: u64) -> bool {
+        self.leases.values().any(|(_, dl)| t + Duration::from_millis(drift_ms) >= *dl && t <= *dl + Duration::from_millis(1000))
+            || self.ghosts.iter().any(|g| t + Duration::from_millis(drift_ms) >= g.1 && t <= g.2 + Duration::from_millis(1000))
+    }
 }
 pub struct Fail { pub prop: &'static str, pub what: String }
 /// "C10+C11" -> "\"property\":\"C10\",\"also\":[\"C11\"]"
@@ -129,14 +144,20 @@ pub fn prop_json(p: &str) -> String {
     format!("\"property\":\"{}\",\"also\":[{}]", first, rest.join(","))
 }
 
+/// polls a future exactly once
+async fn futures_poll_once<F: std::future::Future>(mut f: std::pin::Pin<&mut F>) -> Option<F::Output> {
+    std::future::poll_fn(|cx| std::task::Poll::Ready(match f.as_mut().poll(cx) { std::task::Poll::Ready(v) => Some(v), std::task::Poll::Pending => None })).await
+}
 async fn settle() {
     // let the actor task run: timers (1 ms granularity) and mailbox
     tokio::time::sleep(Duration::from_millis(3)).await;
     for _ in 0..5 { tokio::task::yield_now().await; }
 }
 
-async fn run_history(ops: &[Op], ack_deadline_s: u64) -> Result<(), Fail> {
+async fn run_history(ops: &[Op], ack_deadline_s: u64, uptime_days: u64) -> Result<(), Fail> {
     let setup = |w: &str| Fail { prop: "SETUP", what: w.to_string() };
+    // the server has been up for a while: deadlines are computed relative to a process-wide epoch
+    if uptime_days > 0 { tokio::time::advance(Duration::from_secs(uptime_days * 86_400) + Duration::from_millis(37)).await; }
     let topic_manager = TopicManager::new();
     let subscription_manager = SubscriptionManager::new(Default::default());
     let topic = topic_manager.create_topic(TopicName::new("p", "t")).map_err(|_| setup("create topic"))?;
@@ -147,8 +168,9 @@ async fn run_history(ops: &[Op], ack_deadline_s: u64) -> Result<(), Fail> {
     let info2 = SubscriptionInfo::new(SubscriptionName::new("p", "s2"), Duration::from_secs(600), None);
     let sub2 = subscription_manager.create_subscription(info2, Arc::clone(&topic)).await.map_err(|_| setup("create sub2"))?;
     let d = Duration::from_secs(ack_deadline_s);
-    let mut m = Model { pending: Vec::new(), leases: BTreeMap::new(), used_ack_ids: Vec::new(), acked: Vec::new(), published: Vec::new(), delivered_once: Vec::new() };
+    let mut m = Model { pending: Vec::new(), leases: BTreeMap::new(), ghosts: Vec::new(), used_ack_ids: Vec::new(), acked: Vec::new(), published: Vec::new(), delivered_once: Vec::new() };
     let mut payload = 0u32;
+    let mut ghost_era = false;
     for (k, op) in ops.iter().enumerate() {
         let fail = |prop: &'static str, what: String| Err(Fail { prop, what: format!("step {} {}: {}", k, op_to_json(op), what) });
         let stats_tag: &'static str;
@@ -179,7 +201,7 @@ async fn run_history(ops: &[Op], ack_deadline_s: u64) -> Result<(), Fail> {
                     if seen_here.contains(&id) { return fail("C03", format!("message {} twice in one response", id)); }
                     seen_here.push(id);
                     if m.acked.contains(&id) { return fail("C02", format!("acknowledged message {} delivered again", id)); }
-                    if m.leases.values().any(|(x, _)| *x == id) { return fail("C03", format!("message {} handed out while its previous delivery is still outstanding", id)); }
+                    if m.leases.values().any(|(x, _)| *x == id) || m.ghosts.iter().any(|g| g.0 == id) { return fail("C03", format!("message {} handed out while its previous delivery is still outstanding", id)); }
                     let pos = match m.pending.iter().position(|x| *x == id) { Some(p) => p, None => return fail("C01", format!("message {} delivered but was never published to this subscription / not pending", id)) };
                     let aid: u64 = p.ack_id().to_string().parse().unwrap();
                     if m.used_ack_ids.contains(&aid) { return fail("C03+C02", format!("ack id {} was used before on this subscription", aid)); }
@@ -200,6 +222,8 @@ async fn run_history(ops: &[Op], ack_deadline_s: u64) -> Result<(), Fail> {
                 stats_tag = "C02";
                 let now = Instant::now();
                 m.expire(now);
+                let ids: Vec<u64> = ids.iter().map(|i| if ghost_era && !m.used_ack_ids.contains(i) { *i + 1_000_000 } else { *i }).collect();
+                let ids = &ids;
                 sub.acknowledge_messages(ids.iter().map(|i| AckId::new(*i)).collect()).await.map_err(|_| setup("ack"))?;
                 for i in ids { if let Some((mid, _)) = m.leases.remove(i) { m.acked.push(mid); } }
             }
@@ -207,6 +231,8 @@ async fn run_history(ops: &[Op], ack_deadline_s: u64) -> Result<(), Fail> {
                 stats_tag = "C05";
                 let now = Instant::now();
                 m.expire(now);
+                let ms: Vec<(u64, i32)> = ms.iter().map(|(i, s)| if ghost_era && !m.used_ack_ids.contains(i) { (*i + 1_000_000, *s) } else { (*i, *s) }).collect();
+                let ms = &ms;
                 let mods = ms.iter().map(|(i, s)| {
                     if *s == 0 { DeadlineModification::nack(AckId::new(*i)) } else {
                         let secs = (*s).min(600) as u64;
@@ -225,21 +251,38 @@ async fn run_history(ops: &[Op], ack_deadline_s: u64) -> Result<(), Fail> {
                 stats_tag = "C04";
                 // never stop close to a deadline: the timer wheel has 1 ms granularity and the select order is random
                 let mut target = Instant::now() + Duration::from_millis(*ms);
-                loop {
-                    let near = m.leases.values().any(|(_, dl)| { let lo = *dl - Duration::from_millis(8); let hi = *dl + Duration::from_millis(3); target >= lo && target <= hi });
-                    if !near { break; }
-                    target += Duration::from_millis(12);
-                }
+                while m.uncertain(target) { target += Duration::from_millis(253); }
                 tokio::time::advance(target - Instant::now()).await;
                 settle().await;
                 m.expire(Instant::now());
             }
+            Op::AbandonedPull => {
+                stats_tag = "C03+C16";
+                let now = Instant::now();
+                m.expire(now);
+                if m.uncertain(now) { continue; }
+                ghost_era = true;
+                {
+                    let fut = sub.pull_messages(1000);
+                    tokio::pin!(fut);
+                    // one poll puts the request into the actor's mailbox; then the consumer disappears
+                    let _ = futures_poll_once(fut.as_mut()).await;
+                }
+                for _ in 0..5 { tokio::task::yield_now().await; }
+                // whatever was pending is now leased to nobody in particular until the ack deadline passes
+                let taken: Vec<u64> = m.pending.drain(..).collect();
+                for id in taken {
+                    if !m.delivered_once.contains(&id) { m.delivered_once.push(id); }
+                    m.ghosts.push((id, now + d, now + d + Duration::from_millis(100)));
+                }
+            }
             Op::ProbeBefore => {
                 stats_tag = "C04";
-                if let Some(dl) = m.earliest() {
+                let lower = m.leases.values().map(|(_, d)| *d).chain(m.ghosts.iter().map(|g| g.1)).min();
+                if let Some(dl) = lower {
                     // 1 ms before the earliest deadline: nothing may have been requeued yet (C04 "not before")
                     let target = dl - Duration::from_millis(1);
-                    if target > Instant::now() {
+                    if target > Instant::now() && !m.uncertain_drift(target, 0) {
                         tokio::time::advance(target - Instant::now()).await;
                         for _ in 0..5 { tokio::task::yield_now().await; }
                         m.expire(Instant::now());
@@ -249,7 +292,9 @@ async fn run_history(ops: &[Op], ack_deadline_s: u64) -> Result<(), Fail> {
             Op::ProbeAfter => {
                 stats_tag = "C04";
                 if let Some(dl) = m.earliest() {
-                    let target = dl + Duration::from_millis(5);
+                    // the statement allows "a fixed sub-second slack" after the deadline: probe 1 s + 5 ms after it
+                    let mut target = dl + Duration::from_millis(1005);
+                    while m.uncertain(target) { target += Duration::from_millis(253); }
                     if target > Instant::now() {
                         tokio::time::advance(target - Instant::now()).await;
                         settle().await;
@@ -260,8 +305,8 @@ async fn run_history(ops: &[Op], ack_deadline_s: u64) -> Result<(), Fail> {
         }
         // observable state after every turn
         let stats = sub.get_stats().await.map_err(|_| setup("stats"))?;
-        if stats.outstanding_messages_count != m.leases.len() || stats.backlog_messages_count != m.pending.len() {
-            return fail(stats_tag, format!("stats outstanding/backlog = {}/{}, expected {}/{}", stats.outstanding_messages_count, stats.backlog_messages_count, m.leases.len(), m.pending.len()));
+        if stats.outstanding_messages_count != m.leases.len() + m.ghosts.len() || stats.backlog_messages_count != m.pending.len() {
+            return fail(stats_tag, format!("stats outstanding/backlog = {}/{}, expected {}/{}", stats.outstanding_messages_count, stats.backlog_messages_count, m.leases.len() + m.ghosts.len(), m.pending.len()));
         }
         let stats2 = sub2.get_stats().await.map_err(|_| setup("stats"))?;
         if stats2.outstanding_messages_count != 0 || stats2.backlog_messages_count != m.published.len() {
@@ -296,7 +341,7 @@ fn gen_ops(rng: &mut Rng, steps: usize) -> Vec<Op> {
             5 | 6 => { let n = 1 + rng.below(4); Op::Ack((0..n).map(|_| 1 + rng.below(next_ack_guess.min(12) + 2)).collect()) }
             7 | 8 => { let n = 1 + rng.below(4); Op::Modify((0..n).map(|_| (1 + rng.below(next_ack_guess.min(12) + 2), [0, 0, 1, 5, 30, 599, 600, 700][rng.below(8) as usize])).collect()) }
             9 => Op::AdvanceMs([50u64, 1000, 5000, 9990, 10_050, 30_000][rng.below(6) as usize]),
-            10 => Op::ProbeBefore,
+            10 => if rng.below(3) == 0 { Op::AbandonedPull } else { Op::ProbeBefore },
             _ => Op::ProbeAfter,
         };
         ops.push(op);
@@ -313,17 +358,18 @@ fn cmd_history(seed: u64, iters: usize, steps: usize) -> i32 {
     for it in 0..iters {
         let ops = gen_ops(&mut rng, steps);
         let d = [10u64, 10, 12, 20][rng.below(4) as usize];
-        if let Err(e) = rt().block_on(run_history(&ops, d)) {
+        let up = [0u64, 0, 1, 30, 400][rng.below(5) as usize];
+        if let Err(e) = rt().block_on(run_history(&ops, d, up)) {
             // shrink: drop ops while it still fails for the same property
             let mut cur = ops.clone();
             let mut i = 0;
             while i < cur.len() {
                 let mut t = cur.clone();
                 t.remove(i);
-                match rt().block_on(run_history(&t, d)) { Err(f) if f.prop == e.prop => { cur = t; } _ => { i += 1; } }
+                match rt().block_on(run_history(&t, d, up)) { Err(f) if f.prop == e.prop => { cur = t; } _ => { i += 1; } }
             }
-            let e2 = rt().block_on(run_history(&cur, d)).err().unwrap_or(e);
-            println!("WITNESS {{\"kind\":\"history\",{},\"ack_deadline_s\":{},\"ops\":{},\"observed\":{:?},\"iteration\":{}}}", prop_json(e2.prop), d, ops_to_json(&cur), e2.what, it);
+            let e2 = rt().block_on(run_history(&cur, d, up)).err().unwrap_or(e);
+            println!("WITNESS {{\"kind\":\"history\",{},\"ack_deadline_s\":{},\"uptime_days\":{},\"ops\":{},\"observed\":{:?},\"iteration\":{}}}", prop_json(e2.prop), d, up, ops_to_json(&cur), e2.what, it);
             return 1;
         }
     }
@@ -343,6 +389,13 @@ fn ref_parse(s: &str, mid: &str) -> Option<(String, String)> {
     Some((p.to_string(), t.to_string()))
 }
 fn jopt(o: &Option<String>) -> String { match o { Some(s) => format!("{:?}", s), None => "null".to_string() } }
+/// shape required by the C18 statement: projects/<project without slash, non-empty><mid><non-empty id>
+fn ref_shape(s: &str, mid: &str) -> bool {
+    let rest = match s.strip_prefix("projects/") { Some(r) => r, None => return false };
+    let i = match rest.find('/') { Some(i) => i, None => return false };
+    if i == 0 { return false; }
+    match rest[i..].strip_prefix(mid) { Some(t) => !t.is_empty(), None => false }
+}
 fn cmd_names(maxlen: usize) -> i32 {
     std::panic::set_hook(Box::new(|_| {}));
     let alphabet = ['p', 't', '/', 's', 'é', '-'];
@@ -365,14 +418,21 @@ fn cmd_names(maxlen: usize) -> i32 {
                         return 1;
                     }
                 };
-                let echo = got.clone();
-                let want_echo = want.as_ref().map(|(p, t)| format!("projects/{}{}{}", p, mid, t));
-                if got != want_echo {
-                    println!("WITNESS {{\"kind\":\"name\",\"property\":\"C18\",\"topic\":{},\"input\":{:?},\"accepted_as\":{},\"grammar_says\":{}}}", is_topic, s, jopt(&got), jopt(&want_echo));
+                // (a) accepted only if the string has the shape projects/<p without slash>/<mid literal><non-empty id>
+                if got.is_some() && !ref_shape(&s, mid) {
+                    println!("WITNESS {{\"kind\":\"name\",\"property\":\"C18\",\"topic\":{},\"input\":{:?},\"accepted_as\":{},\"observed\":\"accepted although it is not projects/<project>{}<id>\"}}", is_topic, s, jopt(&got), mid);
                     return 1;
                 }
-                if let Some(e) = echo {
-                    // the canonical echo is accepted and denotes the same resource
+                // (b) a canonical string (id without leading / trailing slash) is accepted and echoed unchanged
+                if let Some((p, t)) = &want {
+                    let canonical = format!("projects/{}{}{}", p, mid, t);
+                    if canonical == s && got.as_deref() != Some(s.as_str()) {
+                        println!("WITNESS {{\"kind\":\"name\",\"property\":\"C18\",\"topic\":{},\"input\":{:?},\"accepted_as\":{},\"observed\":\"canonical name not accepted as itself\"}}", is_topic, s, jopt(&got));
+                        return 1;
+                    }
+                }
+                // (c) the echoed name of an accepted name is accepted and denotes the same resource
+                if let Some(e) = got.clone() {
                     let again = if is_topic { TopicName::try_parse(&e).map(|x| x.to_string()) } else { SubscriptionName::try_parse(&e).map(|x| x.to_string()) };
                     if again.as_ref() != Some(&e) {
                         println!("WITNESS {{\"kind\":\"name-echo\",\"property\":\"C18\",\"topic\":{},\"input\":{:?},\"echo\":{:?},\"echo_parsed\":{}}}", is_topic, s, e, jopt(&again));
@@ -394,6 +454,8 @@ fn cmd_names(maxlen: usize) -> i32 {
     }
     // identity: names that differ in project or id denote different resources (as values, as hash-map keys, in the managers)
     let parts = ["a", "b", "ab", "a-b", "é"];
+    let runtime = rt();
+    let _guard = runtime.enter();
     let tm = TopicManager::new();
     let mut created: Vec<(String, String)> = Vec::new();
     for p1 in parts { for t1 in parts {
@@ -750,8 +812,35 @@ async fn run_order(publishers: usize, per_request: usize) -> Result<(), Fail> {
     }
     Ok(())
 }
+/// one large Publish request (more than any internal batch size) racing a small one: the large request stays contiguous
+async fn run_order_big() -> Result<(), Fail> {
+    let tm = TopicManager::new();
+    let sm = SubscriptionManager::new(Default::default());
+    let topic = tm.create_topic(TopicName::new("p", "big")).map_err(|_| Fail { prop: "SETUP", what: "create".into() })?;
+    let sub = sm.create_subscription(SubscriptionInfo::new_with_defaults(SubscriptionName::new("p", "big")), Arc::clone(&topic)).await.map_err(|_| Fail { prop: "SETUP", what: "create sub".into() })?;
+    let (ta, tb) = (Arc::clone(&topic), Arc::clone(&topic));
+    let a = tokio::spawn(async move { ta.publish_messages((0..2500u32).map(|i| TopicMessage::new(Bytes::from(i.to_be_bytes().to_vec()), None)).collect()).await.map(|r| r.message_ids.iter().map(|x| x.value).collect::<Vec<u64>>()) });
+    let b = tokio::spawn(async move { tokio::task::yield_now().await; tb.publish_messages(vec![TopicMessage::new(Bytes::from("b"), None)]).await.map(|r| r.message_ids.iter().map(|x| x.value).collect::<Vec<u64>>()) });
+    let ia = a.await.map_err(|_| Fail { prop: "SETUP", what: "join".into() })?.map_err(|_| Fail { prop: "C01", what: "publish failed".into() })?;
+    let ib = b.await.map_err(|_| Fail { prop: "SETUP", what: "join".into() })?.map_err(|_| Fail { prop: "C01", what: "publish failed".into() })?;
+    if ia.len() != 2500 || ib.len() != 1 { return Err(Fail { prop: "C08", what: format!("Publish returned {} / {} ids for 2500 / 1 messages", ia.len(), ib.len()) }); }
+    for w in ia.windows(2) { if w[1] != w[0] + 1 { return Err(Fail { prop: "C08", what: "ids of one request are not consecutive".into() }); } }
+    if ib[0] > ia[0] && ib[0] < ia[2499] { return Err(Fail { prop: "C08", what: format!("id {} of a concurrent request lies inside the id range {}..{} of one Publish request", ib[0], ia[0], ia[2499]) }); }
+    let mut got = Vec::new();
+    loop { let p = sub.pull_messages(1000).await.map_err(|_| Fail { prop: "SETUP", what: "pull".into() })?; if p.is_empty() { break; } got.extend(p.iter().map(|m| m.message().id.value)); }
+    if got.len() != 2501 { return Err(Fail { prop: "C01", what: format!("{} of 2501 messages delivered", got.len()) }); }
+    let pos = got.iter().position(|x| *x == ib[0]).unwrap_or(0);
+    if pos != 0 && pos != 2500 { return Err(Fail { prop: "C08", what: format!("a message of another request was first-delivered at position {} inside one Publish request of 2500 messages", pos) }); }
+    Ok(())
+}
 fn cmd_order(rounds: usize) -> i32 {
     let rt = tokio::runtime::Builder::new_multi_thread().worker_threads(2).enable_all().build().unwrap();
+    for r in 0..(rounds / 10 + 1) {
+        if let Err(e) = rt.block_on(run_order_big()) {
+            println!("WITNESS {{\"kind\":\"order\",{},\"publishers\":2,\"observed\":{:?},\"round\":{}}}", prop_json(e.prop), e.what, r);
+            return 1;
+        }
+    }
     for r in 0..rounds {
         if let Err(e) = rt.block_on(run_order(2 + r % 3, 3)) {
             println!("WITNESS {{\"kind\":\"order\",{},\"publishers\":{},\"observed\":{:?},\"round\":{}}}", prop_json(e.prop), 2 + r % 3, e.what, r);
@@ -785,7 +874,8 @@ fn main() {
         Some("run-history") => {
             let d: u64 = args[2].parse().unwrap();
             let ops = parse_ops(&args[3]);
-            match rt().block_on(run_history(&ops, d)) {
+            let up: u64 = args.get(4).map(|x| x.parse().unwrap_or(0)).unwrap_or(0);
+            match rt().block_on(run_history(&ops, d, up)) {
                 Ok(()) => { println!("NO-WITNESS history replays without divergence"); 0 }
                 Err(e) => { println!("WITNESS {{\"kind\":\"history\",{},\"ack_deadline_s\":{},\"ops\":{},\"observed\":{:?}}}", prop_json(e.prop), d, ops_to_json(&ops), e.what); 1 }
             }
